@@ -200,7 +200,7 @@ func route(spec *gspec.GraphSpec, opts []optSpec) (map[string][]string, bool, st
 func TestCheck(t *testing.T) {
 	cfg := mon.Load(ID)
 	rep := mon.NewReporter(cfg, "exploration",
-		"generated nested specs (depth <=3; nested graphs in all three modes) mixing lambdas of two option types, pass-through nodes and nested graphs; 10 (quick) / 40 (thorough) calls per spec, each with 0-6 call options: undesignated, DesignateNode, DesignateNodeWithPath with several paths, several option values, ONE option carrying values of both option types (undesignated / designated to a nested graph: every value reaches the nodes of its type; designated to a lambda: an error), options derived in different calls from one shared base option, run-time step limits designated to nested graphs (reference: the limit bounds that graph only), invalid designations (unknown node, path below a lambda, path below a pass-through node, wrong option type, one wrong value among several, any option designated to a pass-through node, a step limit designated to a lambda or a pass-through node), and callback handlers designated to nodes; sequential calls and 8-way concurrent calls. Oracle: a reference router computes for every node path the expected ordered payload list; every executed body's received options must equal it; a call with an invalid designation must fail; a valid call with a multi-type option that fails while the same call with one Option per value succeeds is a violation; a designated handler may fire only for its node; payloads carry (call id, option id) so that leakage between calls is visible. Non-trivial: a call with >=2 options of which >=1 designated into a nested graph; distinct = (spec, options). PLUS (every 5th case) hand-shaped and generated graphs of chat models, lambdas, pass-through nodes and nested graphs (designation_gaps_test.go, component_test.go, iface_option_test.go): chat-model options, lambda options, one Option with values of two or three option types (also a chat-model option inside WithLambdaOption), step limits (undesignated: the top-level graph only), each undesignated or designated to every kind of node, Invoke and Stream. PLUS (every 5th case, resume_test.go) graph-run options designated to nested graphs: on resumes of interrupts inside stateful nested graphs (depth 1-3, one or two interrupt points, so that enclosing graphs, nested graphs and siblings are restored together) WithStateModifier designated to 1-3 nested graphs must be called exactly for the designated graphs whose state the call restores, with their node path and their state object, and only their states show the modification to the state handlers that run afterwards; WithCheckPointID designated to a nested graph must not make the top-level graph touch its store.",
+		"generated nested specs (depth <=3; nested graphs in all three modes) mixing lambdas of two option types, pass-through nodes and nested graphs; 10 (quick) / 40 (thorough) calls per spec, each with 0-6 call options: undesignated, DesignateNode, DesignateNodeWithPath with several paths, several option values, ONE option carrying values of both option types (undesignated / designated to a nested graph: every value reaches the nodes of its type; designated to a lambda: an error), options derived in different calls from one shared base option, run-time step limits designated to nested graphs (reference: the limit bounds that graph only), invalid designations (unknown node, path below a lambda, path below a pass-through node, wrong option type, one wrong value among several, any option designated to a pass-through node, a step limit designated to a lambda or a pass-through node), and callback handlers designated to nodes; sequential calls and 8-way concurrent calls. Oracle: a reference router computes for every node path the expected ordered payload list; every executed body's received options must equal it; a call with an invalid designation must fail; a valid call with a multi-type option that fails while the same call with one Option per value succeeds is a violation; a designated handler may fire only for its node; payloads carry (call id, option id) so that leakage between calls is visible. Non-trivial: a call with >=2 options of which >=1 designated into a nested graph; distinct = (spec, options). PLUS (every 5th case) hand-shaped and generated graphs of chat models, lambdas, pass-through nodes and nested graphs (designation_gaps_test.go, component_test.go, iface_option_test.go): chat-model options, lambda options, one Option with values of two or three option types (also a chat-model option inside WithLambdaOption), step limits (undesignated: the top-level graph only), each undesignated or designated to every kind of node, Invoke and Stream. PLUS (every 5th case, resume_test.go) graph-run options designated to nested graphs: on resumes of interrupts inside stateful nested graphs (depth 1-3, one or two interrupt points, so that enclosing graphs, nested graphs and siblings are restored together) WithStateModifier designated to 1-3 nested graphs must be called exactly for the designated graphs whose state the call restores, with their node path and their state object, and only their states show the modification to the state handlers that run afterwards; WithCheckPointID designated to a nested graph must not make the top-level graph touch its store. PLUS (same cases, nested_statemod_test.go) trees (1-3 nesting levels) of Graphs in both trigger modes, Chains and Workflows made of Lambdas, pass-through nodes, chat models and nested graphs, with and without local states: fresh calls and resumes of an interrupt before a node at any depth (Invoke / Stream) carry 1-3 WithStateModifier options, undesignated or designated (DesignateNode / DesignateNodeWithPath, 1-3 paths) to graph nodes and to non-graph nodes at depth 1-4, next to lambda options, designated callbacks and step limits in any order: a modifier designated to a non-graph node at any depth makes the call an error (a refused resume leaves the checkpoint usable); otherwise every modifier is called exactly once for every restored graph it addresses, with that graph's path and state, the bodies that run afterwards see exactly these modifications, and the other options are delivered as without the modifiers.",
 		[]string{"an option designated to a graph node addresses that graph (all nodes of its type inside)", "a pass-through node takes no option: any option designated to it is 'an option of the wrong type'; a run-time step limit is an option for graphs: designated to another node it is of the wrong type", "a step limit designated to a nested graph in all-predecessor mode is not generated (eino refuses step limits for such graphs; the statement is silent)", "the graphs whose state a resume restores are those that the interrupt information of the resumed interrupt reports with a state"},
 		100)
 	defer func() {
@@ -212,6 +212,10 @@ func TestCheck(t *testing.T) {
 	rep.Require("designated_state_modifier_calls_checked", 100)
 	rep.Require("restored_states_left_alone_checked", 100)
 	rep.Require("component_graph_calls", 500)
+	rep.Require("nested_modifier_invalid_calls_refused", 200)
+	rep.Require("nested_modifier_invalid_resumes_refused", 50)
+	rep.Require("nested_modifier_applications_checked", 100)
+	rep.Require("nested_modifier_valid_fresh_calls", 100)
 	rep.Require("rejected_option-for-passthrough", 20)
 	rep.Require("rejected_step-limit-for-component", 20)
 	rep.Require("valid_calls_with_one_option_of_two_value_types", 200)
@@ -220,6 +224,9 @@ func TestCheck(t *testing.T) {
 		if idx%5 == 3 {
 			for k := 0; k < cfg.Pick(6, 12); k++ {
 				designatedStateModifierCase(ctx, rep, rng.Sub(fmt.Sprint("statemod", k)), cfg)
+			}
+			for k := 0; k < cfg.Pick(8, 10); k++ {
+				nestedStateModifierCase(ctx, rep, rng.Sub(fmt.Sprint("nestedmod", k)), cfg)
 			}
 		}
 		if idx%5 == 4 {
